@@ -46,7 +46,7 @@ open Generated.SwitchDispatch in
 /-- the library's constants used by the model have the values of the standard -/
 theorem consts_spec :
     OFPET_BAD_REQUEST = 1 ∧ OFPET_BAD_ACTION = 2 ∧ OFPET_FLOW_MOD_FAILED = 3 ∧ OFPET_PORT_MOD_FAILED = 4 ∧ OFPET_QUEUE_OP_FAILED = 5 ∧
-    OFPBRC_BAD_STAT = 2 ∧ OFPBRC_BAD_VENDOR = 3 ∧ OFPBRC_BUFFER_EMPTY = 7 ∧ OFPBRC_BUFFER_UNKNOWN = 8 ∧ OFPBAC_BAD_TYPE = 0 ∧
+    OFPBRC_BAD_STAT = 2 ∧ OFPBRC_BAD_VENDOR = 3 ∧ OFPBRC_BUFFER_EMPTY = 7 ∧ OFPBRC_BUFFER_UNKNOWN = 8 ∧ OFPBAC_BAD_TYPE = 0 ∧ OFPBAC_TOO_MANY = 7 ∧
     OFPFMFC_ALL_TABLES_FULL = 0 ∧ OFPFMFC_OVERLAP = 1 ∧ OFPFMFC_EPERM = 2 ∧ OFPFMFC_BAD_EMERG_TIMEOUT = 3 ∧ OFPFMFC_BAD_COMMAND = 4 ∧
     OFPPMFC_BAD_PORT = 0 ∧ OFPPMFC_BAD_HW_ADDR = 1 ∧ OFPQOFC_BAD_PORT = 0 ∧ OFPQOFC_BAD_QUEUE = 1 ∧
     OFPP_MAX = 0xff00 ∧ OFPP_IN_PORT = 0xfff8 ∧ OFPP_TABLE = 0xfff9 ∧ OFPP_FLOOD = 0xfffb ∧ OFPP_ALL = 0xfffc ∧
@@ -137,12 +137,15 @@ theorem multipart_answer {x t : Nat} {g : List Reply} {bs : List StatsBody} (h :
 
 /-- **multipart_split**: the splitting rule of `_split_stats_body` (greedy: an entry opens a new part when it does not fit
 the current one — and is then counted in the new one), for any entry type and size function: the parts, concatenated, are
-exactly the list; there is at least one part; no part of a non-empty list is empty; and when every single entry fits a
-message, EVERY part — the first and all later ones — fits (body at most 65523 bytes, message at most 65535). -/
+exactly the list; there is at least one part; no part of a non-empty list is empty; when every single entry fits a
+message, EVERY part — the first and all later ones — fits (body at most 65523 bytes, message at most 65535); and the
+parts are maximal (`Greedy`): for consecutive parts p, q = e :: _ the entry e would not have fitted into p
+((p.map size).sum + size e > 65523) — together with the concatenation this pins the rule (one entry per part would not do). -/
 theorem multipart_split {α} (size : α → Nat) (l : List α) :
     (splitParts size l).flatten = l ∧ splitParts size l ≠ [] ∧ (l ≠ [] → ∀ p ∈ splitParts size l, p ≠ []) ∧
+    Greedy size (splitParts size l) ∧
     ((∀ e ∈ l, size e ≤ 65523) → ∀ p ∈ splitParts size l, (p.map size).sum + 12 ≤ 65535) := by
-  refine ⟨splitParts_flatten size l, splitParts_ne size l, splitParts_nonempty size l, ?_⟩
+  refine ⟨splitParts_flatten size l, splitParts_ne size l, splitParts_nonempty size l, splitParts_greedy size l, ?_⟩
   intro h p hp
   have := splitParts_fit size l h p hp
   have e : partLimit = 65523 := rfl
@@ -180,7 +183,7 @@ theorem stats_spec (s : SwitchState) (x : Nat) (req : StatsReq) (hwf : ∀ t, re
   | port p =>
     have hl : statsTable.lookup (StatsReq.port p).stype = some .port := rfl
     have key : ∀ (l : List PortCtr), ∃ g, (if (bodyParts (.ports l)).all (fun b => decide (bodyLen b ≤ partLimit)) = true
-          then (Except.ok (s, [] ++ markParts x (StatsReq.port p).stype (bodyParts (.ports l))) : Res) else .error .struct) = .ok (s, g) ∧
+          then (Except.ok (s, [] ++ markParts x (StatsReq.port p).stype (bodyParts (.ports l))) : Res) else .error (.struct ((bodyParts (.ports l)).takeWhile (fun b => decide (bodyLen b ≤ partLimit))).length)) = .ok (s, g) ∧
         AnswerTo x g ∧ ∃ ls : List (List PortCtr), Multipart x 4 g (ls.map .ports) ∧ ls.flatten = l ∧ ∀ q ∈ ls, (q.map portEntryLen).sum ≤ 65523 := by
       intro l
       have hsel : ∀ e ∈ l, portEntryLen e ≤ partLimit := by intro e _; show (104 : Nat) ≤ 65523; decide
@@ -258,13 +261,20 @@ theorem one_reply (s : SwitchState) (m : Msg) (hk : IsRequest m) (hwf : m.WF) (h
     exact stats_spec s x req hw (fun _ => hfit)
   | _ => exact absurd hk (by simp [IsRequest])
 
-/-- why `one_reply` needs `FlowsFit`: an installed flow whose action list is 65440 bytes long (a 65512-byte flow_mod)
-cannot be reported — `ofp_flow_stats.pack` / `ofp_stats_reply.pack` raise `struct.error`, no reply is sent -/
+/-- why `one_reply` needs `FlowsFit` (an arbitrary state may hold an entry whose action list is longer than 65435 bytes):
+`_rx_stats_request` packs and sends part by part, so the parts in front of the oversize one go out — all flagged
+REPLY_MORE — and then `ofp_stats_reply.pack` raises `struct.error`: the request is never completed.  Here: an ordinary
+entry and an oversize one; ONE part has been sent when the failure occurs (none if the oversize entry is alone).
+Since repair C13-5 (`tooManyActions`) such an entry cannot be installed any more: `step_fit` makes `FlowsFit` an
+invariant of every history, without any condition on the flow_mods. -/
 theorem oversize_entry_fails (s : SwitchState) (x : Nat) :
+    rxMessage { s with table := [{ mkey := none, priority := 2, cookie := 1, flags := 0, outs := [], actsLen := 8 },
+                                 { mkey := none, priority := 1, cookie := 0, flags := 0, outs := [], actsLen := 65440 }] }
+      (.statsRequest x (.flow none 0 65535)) = .error (.struct 1) ∧
     rxMessage { s with table := [{ mkey := none, priority := 1, cookie := 0, flags := 0, outs := [], actsLen := 65440 }] }
-      (.statsRequest x (.flow none 0 65535)) = .error .struct := by
+      (.statsRequest x (.flow none 0 65535)) = .error (.struct 0) := by
   have e : ∀ t, rxMessage t (.statsRequest x (.flow none 0 65535)) = rxStats t x (.flow none 0 65535) := fun _ => rfl
-  rw [e]; rfl
+  rw [e, e]; exact ⟨rfl, rfl⟩
 
 /-! ## replies_carry_xid, never_fails -/
 
@@ -372,6 +382,7 @@ theorem silent_kinds (s : SwitchState) :
     (∀ x c mk p ck f i hd op b acts, c ≤ 4 → hasBit f OFPFF_EMERG = false →
         (hasBit f OFPFF_CHECK_OVERLAP = false ∨ checkOverlap p mk s.table = false) →
         (c ≤ 2 → s.table.length < s.maxEntries) → actsInScope acts → (∀ a ∈ acts, (actionTable.lookup a.ty).isSome) →
+        88 + actsLenOf acts ≤ 65523 →
         (∀ id, b = some id → bufferLive s id = true) →
         ∃ s' out, rxMessage s (.flowMod x c mk p ck f i hd op b acts) = .ok (s', out) ∧ ∀ r ∈ out, r.isAsync = true) := by
   refine ⟨fun _ _ _ => rfl, fun _ _ => rfl, ?_, ?_, ?_, ?_⟩
@@ -398,7 +409,7 @@ theorem silent_kinds (s : SwitchState) :
     · rcases hlive with h | h
       · rw [h] at hd; cases hd
       · rw [h id hb] at hdead; cases hdead
-  · intro x c mk p ck f i hd op b acts hc he ho hlen hs hk hlive
+  · intro x c mk p ck f i hd op b acts hc he ho hlen hs hk hsize hlive
     have e : rxMessage s (.flowMod x c mk p ck f i hd op b acts) = rxFlowMod s x c mk p ck f i hd op b acts := rfl
     rw [e]
     obtain ⟨h, hl⟩ := flowModTable_some hc
@@ -461,7 +472,7 @@ theorem silent_kinds (s : SwitchState) :
       | delete => exact flowModDelete_out false s mk p op
       | deleteStrict => exact flowModDelete_out true s mk p op
     unfold rxFlowMod
-    rw [badActions_false hk]
+    rw [badActions_false hk, tooMany_false hsize]
     simp only [Bool.false_eq_true, if_false]
     unfold rxFlowModBody
     rw [hl]
@@ -547,14 +558,14 @@ theorem errors_spec (s : SwitchState) (x : Nat) :
     -- unknown flow-mod command ↦ FLOW_MOD_FAILED/BAD_COMMAND (repair D9)
     (∀ c mk p ck f i hd op b acts, 5 ≤ c → rxMessage s (.flowMod x c mk p ck f i hd op b acts) = .ok (s, [.error x 3 4])) ∧
     -- emergency flow with a timeout ↦ FLOW_MOD_FAILED/BAD_EMERG_TIMEOUT
-    (∀ mk p ck f i hd op acts, (∀ a ∈ acts, (actionTable.lookup a.ty).isSome = true) → hasBit f 4 = true → (i ≠ 0 ∨ hd ≠ 0) →
+    (∀ mk p ck f i hd op acts, ((∀ a ∈ acts, (actionTable.lookup a.ty).isSome = true) ∧ 88 + actsLenOf acts ≤ 65523) → hasBit f 4 = true → (i ≠ 0 ∨ hd ≠ 0) →
         rxMessage s (.flowMod x 0 mk p ck f i hd op none acts) = .ok (s, [.error x 3 3])) ∧
     -- CHECK_OVERLAP with an overlapping entry of equal priority ↦ FLOW_MOD_FAILED/OVERLAP
-    (∀ mk p ck f i hd op acts, (∀ a ∈ acts, (actionTable.lookup a.ty).isSome = true) → hasBit f 4 = false → hasBit f 2 = true →
+    (∀ mk p ck f i hd op acts, ((∀ a ∈ acts, (actionTable.lookup a.ty).isSome = true) ∧ 88 + actsLenOf acts ≤ 65523) → hasBit f 4 = false → hasBit f 2 = true →
         checkOverlap p mk s.table = true →
         rxMessage s (.flowMod x 0 mk p ck f i hd op none acts) = .ok (s, [.error x 3 1])) ∧
     -- table full ↦ FLOW_MOD_FAILED/ALL_TABLES_FULL
-    (∀ mk p ck f i hd op acts, (∀ a ∈ acts, (actionTable.lookup a.ty).isSome = true) → hasBit f 4 = false → hasBit f 2 = false →
+    (∀ mk p ck f i hd op acts, ((∀ a ∈ acts, (actionTable.lookup a.ty).isSome = true) ∧ 88 + actsLenOf acts ≤ 65523) → hasBit f 4 = false → hasBit f 2 = false →
         s.maxEntries ≤ (tableForAdd 0 s.table mk p).length →
         rxMessage s (.flowMod x 0 mk p ck f i hd op none acts) = .ok ({ s with table := tableForAdd 0 s.table mk p }, [.error x 3 0])) ∧
     -- an action of a type the switch does not implement ↦ BAD_ACTION/BAD_TYPE
@@ -562,15 +573,18 @@ theorem errors_spec (s : SwitchState) (x : Nat) :
     -- the same in an ADD / MODIFY / MODIFY_STRICT flow_mod: refused, nothing installed, a named buffer left alone (repair C13-4)
     (∀ c mk p ck f i hd op b acts, c ≤ 2 → (∃ a ∈ acts, actionTable.lookup a.ty = none) →
         rxMessage s (.flowMod x c mk p ck f i hd op b acts) = .ok (s, [.error x 2 0])) ∧
+    -- more actions than a flow-statistics entry can report ↦ BAD_ACTION/TOO_MANY, nothing installed (repair C13-5)
+    (∀ c mk p ck f i hd op b acts, c ≤ 2 → (∀ a ∈ acts, (actionTable.lookup a.ty).isSome = true) → 88 + actsLenOf acts > 65523 →
+        rxMessage s (.flowMod x c mk p ck f i hd op b acts) = .ok (s, [.error x 2 7])) ∧
     -- a buffer id that does not exist ↦ BAD_REQUEST/BUFFER_UNKNOWN; one that was already used ↦ BAD_REQUEST/BUFFER_EMPTY (repair C13-2)
     (∀ id acts, (id = 0 ∨ s.buffers.length ≤ id - 1) → rxMessage s (.packetOut x (some id) false acts) = .ok (s, [.error x 1 8])) ∧
     (∀ id acts, id ≠ 0 → s.buffers[id - 1]? = some false → rxMessage s (.packetOut x (some id) false acts) = .ok (s, [.error x 1 7])) := by
-  have addBody : ∀ mk p ck f i hd op acts, (∀ a ∈ acts, (actionTable.lookup a.ty).isSome = true) →
+  have addBody : ∀ mk p ck f i hd op acts, ((∀ a ∈ acts, (actionTable.lookup a.ty).isSome = true) ∧ 88 + actsLenOf acts ≤ 65523) →
       rxMessage s (.flowMod x 0 mk p ck f i hd op none acts) = .ok (flowModAdd s x 0 mk p ck f i hd acts) := by
     intro mk p ck f i hd op acts hk
     have e : rxMessage s (.flowMod x 0 mk p ck f i hd op none acts) = rxFlowMod s x 0 mk p ck f i hd op none acts := rfl
-    rw [e]; unfold rxFlowMod; rw [badActions_false hk]; rfl
-  refine ⟨?_, ?_, ?_, ?_, ?_, ?_, fun _ => rfl, ?_, ?_, ?_, ?_, ?_, ?_, ?_, ?_⟩
+    rw [e]; unfold rxFlowMod; rw [badActions_false hk.1, tooMany_false hk.2]; rfl
+  refine ⟨?_, ?_, ?_, ?_, ?_, ?_, fun _ => rfl, ?_, ?_, ?_, ?_, ?_, ?_, ?_, ?_, ?_⟩
   · intro p hw c mk h
     have e : rxMessage s (.portMod x p hw c mk) = .ok (rxPortMod s x p hw c mk) := rfl
     rw [e]; unfold rxPortMod; rw [h]; rfl
@@ -612,7 +626,13 @@ theorem errors_spec (s : SwitchState) (x : Nat) :
       have h2 : (c == OFPFC_MODIFY) = false := by simp [OFPFC_MODIFY]; omega
       have h3 : (c == OFPFC_MODIFY_STRICT) = false := by simp [OFPFC_MODIFY_STRICT]; omega
       rw [h1, h2, h3]; rfl
-    rw [e]; unfold rxFlowMod; rw [hb]; simp only [Bool.false_eq_true, if_false]
+    have ht : tooManyActions c acts = false := by
+      unfold tooManyActions
+      have h1 : (c == OFPFC_ADD) = false := by simp [OFPFC_ADD]; omega
+      have h2 : (c == OFPFC_MODIFY) = false := by simp [OFPFC_MODIFY]; omega
+      have h3 : (c == OFPFC_MODIFY_STRICT) = false := by simp [OFPFC_MODIFY_STRICT]; omega
+      rw [h1, h2, h3]; rfl
+    rw [e]; unfold rxFlowMod; rw [hb, ht]; simp only [Bool.false_eq_true, if_false]
     unfold rxFlowModBody; rw [flowModTable_none hc]; rfl
   · intro mk p ck f i hd op acts hk he ht
     rw [addBody mk p ck f i hd op acts hk]; unfold flowModAdd
@@ -644,6 +664,18 @@ theorem errors_spec (s : SwitchState) (x : Nat) :
         List.any_eq_true.mpr ⟨a, ha, by rw [hn]; rfl⟩
       rw [h1, h2]; rfl
     rw [e]; unfold rxFlowMod; rw [hb]; rfl
+  · intro c mk p ck f i hd op b acts hc hk hbig
+    have e : rxMessage s (.flowMod x c mk p ck f i hd op b acts) = rxFlowMod s x c mk p ck f i hd op b acts := rfl
+    have hb : tooManyActions c acts = true := by
+      unfold tooManyActions
+      have h1 : (c == OFPFC_ADD || c == OFPFC_MODIFY || c == OFPFC_MODIFY_STRICT) = true := by
+        have : c = 0 ∨ c = 1 ∨ c = 2 := by omega
+        rcases this with rfl | rfl | rfl <;> rfl
+      have h2 : decide (88 + actsLenOf acts > partLimit) = true := by
+        have : partLimit = 65523 := rfl
+        simp only [decide_eq_true_eq]; omega
+      rw [h1, h2]; rfl
+    rw [e]; unfold rxFlowMod; rw [badActions_false hk, hb]; rfl
   · intro id acts hid
     have e : rxMessage s (.packetOut x (some id) false acts) = processFromBuffer x s acts id := rfl
     rw [e]; unfold processFromBuffer
@@ -672,13 +704,8 @@ def demoState : SwitchState :=
 
 /-! ## theorems over whole request histories -/
 
-/-- the flow a flow_mod installs can be reported in a statistics reply (its action list is at most 65435 bytes) -/
-def MsgFits : Msg → Prop
-  | .flowMod _ _ _ _ _ _ _ _ _ _ acts => 88 + actsLenOf acts ≤ partLimit
-  | _ => True
-
 /-- a history of decodable messages of the 13 controller-to-switch types with action lists in the modelled vocabulary -/
-def Admissible (ms : List Msg) : Prop := ∀ m ∈ ms, m.kind.isSome ∧ m.WF ∧ m.InScope ∧ MsgFits m
+def Admissible (ms : List Msg) : Prop := ∀ m ∈ ms, m.kind.isSome ∧ m.WF ∧ m.InScope
 
 /-- what is written for one message of a history: only asynchronous notifications and messages carrying its xid; and
 if it is a request (echo, features, get-config, barrier, statistics, queue-get-config) one complete answer: at least
@@ -751,14 +778,15 @@ theorem step_table {s s' : SwitchState} {m : Msg} {o : List Reply} (h : rxMessag
     | none => rw [hl] at h; cases h
     | some k => rw [hl] at h; cases k <;> cases h
 
-/-- every reachable table can be reported: the invariant `FlowsFit` survives every message whose flow fits -/
-theorem step_fit {s s' : SwitchState} {m : Msg} {o : List Reply} (h : rxMessage s m = .ok (s', o)) (hm : MsgFits m)
+/-- every reachable table can be reported: the invariant `FlowsFit` survives EVERY message (a flow_mod whose flow would
+not fit is refused, repair C13-5) -/
+theorem step_fit {s s' : SwitchState} {m : Msg} {o : List Reply} (h : rxMessage s m = .ok (s', o))
     (hs : FlowsFit s) : FlowsFit s' := by
   rcases step_table h with ht | ⟨x, c, mk, p, ck, f, i, hd, op, b, acts, rfl⟩
   · intro e he; rw [ht] at he; exact hs e he
   · have e : rxMessage s (.flowMod x c mk p ck f i hd op b acts) = rxFlowMod s x c mk p ck f i hd op b acts := rfl
     rw [e] at h
-    exact rxFlowMod_fit hm hs h
+    exact rxFlowMod_fit hs h
 
 /-- **history_answered_partial**: for every state (whose flows can be reported) and every admissible request history
 of any length, handling never fails and the groups written correspond one-to-one and in order to the messages: every
@@ -770,9 +798,9 @@ theorem history_answered_partial (s : SwitchState) (ms : List Msg) (h : Admissib
   induction ms generalizing s with
   | nil => exact ⟨s, [], rfl, .nil, hfit⟩
   | cons m ms ih =>
-    obtain ⟨hk, hwf, hsc, hmf⟩ := h m List.mem_cons_self
+    obtain ⟨hk, hwf, hsc⟩ := h m List.mem_cons_self
     obtain ⟨s1, o, e1, c1⟩ := handled_partial s m hk hwf hsc hfit
-    obtain ⟨s2, gs, e2, f2, fit2⟩ := ih s1 (fun m' hm' => h m' (List.mem_cons_of_mem _ hm')) (step_fit e1 hmf hfit)
+    obtain ⟨s2, gs, e2, f2, fit2⟩ := ih s1 (fun m' hm' => h m' (List.mem_cons_of_mem _ hm')) (step_fit e1 hfit)
     refine ⟨s2, o :: gs, ?_, .cons ⟨c1, ?_⟩ f2, fit2⟩
     · simp only [run, e1, e2]
     · intro hr
@@ -1022,7 +1050,7 @@ inductive AllEvAnswered : List Event → List (List Reply) → Prop
   | cons {e : Event} {g : List Reply} {es : List Event} {gs : List (List Reply)} :
       EvAnswered e g → AllEvAnswered es gs → AllEvAnswered (e :: es) (g :: gs)
 
-def EvAdmissible (es : List Event) : Prop := ∀ m, Event.msg m ∈ es → m.kind.isSome ∧ m.WF ∧ m.InScope ∧ MsgFits m
+def EvAdmissible (es : List Event) : Prop := ∀ m, Event.msg m ∈ es → m.kind.isSome ∧ m.WF ∧ m.InScope
 
 /-- **history_events_partial**: the same over histories in which the requests are interleaved with data-plane traffic
 (which moves the counters the statistics replies report) and with messages the connection rejects: every request still
@@ -1036,9 +1064,9 @@ theorem history_events_partial (s : SwitchState) (es : List Event) (h : EvAdmiss
     have hrest : EvAdmissible es := fun m hm => h m (List.mem_cons_of_mem _ hm)
     cases e with
     | msg m =>
-      obtain ⟨hk, hwf, hsc, hmf⟩ := h m List.mem_cons_self
+      obtain ⟨hk, hwf, hsc⟩ := h m List.mem_cons_self
       obtain ⟨s1, o, e1, c1⟩ := handled_partial s m hk hwf hsc hfit
-      obtain ⟨s2, gs, e2, f2⟩ := ih s1 hrest (step_fit e1 hmf hfit)
+      obtain ⟨s2, gs, e2, f2⟩ := ih s1 hrest (step_fit e1 hfit)
       refine ⟨s2, o :: gs, ?_, .cons ⟨c1, ?_⟩ f2⟩
       · simp only [runEv, stepEv, e1, e2]
       · intro hr
@@ -1082,14 +1110,14 @@ example : Admissible [.hello 1, .echoRequest 2 [1, 2, 3], .flowMod 3 0 (some 1) 
   intro m hm
   simp only [List.mem_cons, List.mem_nil_iff, or_false] at hm
   rcases hm with rfl | rfl | rfl | rfl | rfl | rfl | rfl
-  · exact ⟨rfl, trivial, trivial, trivial⟩
-  · exact ⟨rfl, trivial, trivial, trivial⟩
-  · refine ⟨rfl, trivial, ?_, by show 88 + 8 ≤ 65523; decide⟩
+  · exact ⟨rfl, trivial, trivial⟩
+  · exact ⟨rfl, trivial, trivial⟩
+  · refine ⟨rfl, trivial, ?_⟩
     intro a ha; simp only [List.mem_singleton] at ha; subst ha; decide
-  · exact ⟨rfl, by show (6 : Nat) ≤ 65535; decide, trivial, trivial⟩
-  · exact ⟨rfl, trivial, trivial, trivial⟩
-  · exact ⟨rfl, trivial, trivial, trivial⟩
-  · refine ⟨rfl, trivial, ?_, trivial⟩
+  · exact ⟨rfl, by show (6 : Nat) ≤ 65535; decide, trivial⟩
+  · exact ⟨rfl, trivial, trivial⟩
+  · exact ⟨rfl, trivial, trivial⟩
+  · refine ⟨rfl, trivial, ?_⟩
     intro a ha; simp only [List.mem_singleton] at ha; subst ha; decide
 /-- a multipart reply: three flows of 30000 bytes each do not fit into one message — two parts, REPLY_MORE on the first -/
 example : (rxMessage { demoState with table := [{ mkey := none, priority := 3, cookie := 1, flags := 0, outs := [], actsLen := 29912 },
